@@ -7,7 +7,7 @@ use serde_json::{json, Value};
 pub const DEF: PropDef = PropDef {
     id: "C09",
     level: "exploration",
-    rule: "complete enumeration of (1) the ill-typed alphabet: every statement template (all statement forms, 1..3 slots) x every filler (a name bound to each value kind incl. NaN, 1e30, empty/non-empty/dictionary arrays, a function name, a never-assigned name, a pronoun with/without referent, literals) in every slot; (2) all sequences <=3 (thorough <=4) of stray-control items (break, continue, return at top level, blank lines, loops, calls of functions whose body is break/continue/return/empty); (3) all sequences <=3 (thorough <=4) of degenerate poetic-literal atoms after five assignment/rock heads; programs the parser rejects are counted and dropped; programs whose reference run exceeds the step/size budget are not executed; all others are executed in both builds: no panic, abort, signal or hang, a renderable error, identical observable result, and the reference outcome where the reference defines one; non-trivial = accepted by the parser and executed; distinct = distinct program text",
+    rule: "complete enumeration of (1) the ill-typed alphabet: every statement template (all statement forms, 1..3 slots) x every filler (a name bound to each value kind incl. NaN, 1e30, empty/non-empty/dictionary arrays, a function name, a never-assigned name, a pronoun with/without referent, literals) in every slot; (2) all sequences <=3 (thorough <=4) of stray-control items (break, continue, return at top level, blank lines, loops, calls of functions whose body is break/continue/return/empty); (3) all sequences <=3 (thorough <=4) of degenerate poetic-literal atoms after seven assignment/rock heads, and poetic literals of 8..330 words; programs the parser rejects are counted and dropped; programs whose reference run exceeds the step/size budget are not executed; all others are executed in both builds: no panic, abort, signal or hang, a renderable error, identical observable result, and the reference outcome where the reference defines one; non-trivial = accepted by the parser and executed; distinct = distinct program text",
     assumptions: &[
         "the checked build asserts every unchecked-unsafe precondition (debug_assert, unchecked_unwrap, overflow checks); aborts/segfaults of a worker are attributed to the case in flight by re-running its chunk in announce mode",
         "resource bound: reference step budget 20k, array/string sizes 1e5; programs beyond it are outside 'modest resources'",
@@ -16,10 +16,10 @@ pub const DEF: PropDef = PropDef {
     exhaustive: true,
 };
 
-pub const PRELUDE: &str = "put mysterious into vm\nput null into vn\nput true into vb\nput 0 into vz\nput 1.5 into vf\nput -1 into vg\nput 1e30 into vh\nput 0 over 0 into vx\nput \"\" into se\nput \"abc\" into sa\nput \"12\" into sn\nrock ae\nrock ar with 1, \"s\"\nfun takes k\ngive back k\n\nlet ad at \"k\" be 1\n";
+pub const PRELUDE: &str = "put mysterious into vm\nput null into vn\nput true into vb\nput 0 into vz\nput 1.5 into vf\nput -1 into vg\nput 1e30 into vh\nput 0 over 0 into vx\nput \"\" into se\nput \"abc\" into sa\nput \"12\" into sn\nrock ae\nrock ar with 1, \"s\"\nfun takes k\ngive back k\n\nGun takes k\ngive back k\n\nlet ad at \"k\" be 1\n";
 pub const NO_REFERENT: &str = "if vb\nsay 0\n\n";
 
-pub const FILLERS: &[&str] = &["vm", "vn", "vb", "vz", "vf", "vg", "vh", "vx", "se", "sa", "sn", "ae", "ar", "ad", "fun", "nev", "it", "5", "\"lit\"", "mysterious", "fun taking ar", "roll ar", "ar at 0", "ar at 1e30", "ad at vh", "Qux Zed"];
+pub const FILLERS: &[&str] = &["vm", "vn", "vb", "vz", "vf", "vg", "vh", "vx", "se", "sa", "sn", "ae", "ar", "ad", "fun", "nev", "it", "5", "\"lit\"", "mysterious", "fun taking ar", "roll ar", "ar at 0", "ar at 1e30", "ad at vh", "Qux Zed", "Gun", "gun"];
 
 pub const TEMPLATES: &[&str] = &[
     "put A into B\n",
@@ -129,6 +129,20 @@ pub fn fill(t: &str, a: &str, b: &str, c: &str) -> String {
     s
 }
 
+/// poetic literals with many words (evaluation walks powers of ten far beyond any table)
+fn long_poetic() -> Space<String> {
+    let mut v = Vec::new();
+    for n in [8usize, 15, 16, 17, 18, 19, 22, 23, 24, 25, 40, 100, 300, 330] {
+        for w in ["a", "abcdefghi", "abcdefghij"] {
+            let words = vec![w; n].join(" ");
+            v.push(format!("x is {}\nsay x\n", words));
+            v.push(format!("x is {} . {}\nsay x\n", words, words));
+            v.push(format!("rock x like {}\nsay x at 0\n", words));
+        }
+    }
+    Space::of(v)
+}
+
 pub struct C09 {
     fams: Vec<(String, Space<String>)>,
 }
@@ -161,6 +175,7 @@ fn build(tier: Tier) -> Box<dyn Check> {
             ("ill-typed-no-referent".into(), no_ref),
             ("stray-control".into(), stray),
             ("degenerate-poetic".into(), poetic),
+            ("long-poetic".into(), long_poetic()),
         ],
     })
 }
